@@ -113,7 +113,7 @@ func (u *Unit) invoke(st *State, instr ssa.Instruction, cc *ssa.CallCommon, call
 			return u.inline(st, fn, args, nil)
 		}
 		fs := u.eng.spec.Funcs[name]
-		if fs == nil && fn.Pkg != nil && fn.Pkg != u.pkg {
+		if fn.Pkg != nil && fn.Pkg != u.pkg {
 			fs = u.eng.spec.Funcs[fn.Pkg.Pkg.Name()+"."+name]
 		}
 		if fs == nil {
@@ -204,7 +204,16 @@ func (u *Unit) contractCall(st *State, instr ssa.Instruction, fs *FuncSpec, name
 	// callee's ssa params for functions.
 	pnames := fs.Params
 	var ptypes []types.Type
-	if fs.Kind == "func" {
+	if fs.Kind == "func" && len(fs.Params) > 0 {
+		// trusted contract of a foreign function: parameter names from the header
+		for i := 0; i < sig.Params().Len(); i++ {
+			off := 0
+			if sig.Recv() != nil {
+				off = 1
+			}
+			_ = off
+		}
+	} else if fs.Kind == "func" {
 		if fn := u.eng.funcByName(u.pkg, fs.Name); fn != nil {
 			pnames = nil
 			for _, p := range fn.Params {
@@ -225,6 +234,17 @@ func (u *Unit) contractCall(st *State, instr ssa.Instruction, fs *FuncSpec, name
 		}
 	}
 	for _, c := range fs.Requires {
+		if sv, ok := u.exclusiveExpr(env, c); ok {
+			ref := u.lower(st, sv.V, sv.Typ)
+			goal := False
+			for _, p := range st.private {
+				if p.ref.S == ref.S {
+					goal = True
+				}
+			}
+			u.addOblig(st, site+".pre.exclusive", c.Text, clauseProps(c, fs), goal, instr, "callee "+name+" requires exclusive access to "+c.Text+": the location must be private to the caller")
+			continue
+		}
 		if lname, base, mode, ok := u.lockedExpr(env, c); ok {
 			u.addOblig(st, site+".pre.locked."+lname, c.Text, u.propsFor("C03"), u.heldGoal(st, lname, base, mode == 2), instr, "callee "+name+" requires the caller to hold "+lname)
 			continue
@@ -446,6 +466,11 @@ func heapBelongs(heap, kind string) bool {
 }
 
 func (u *Unit) immutableHeap(name string) bool {
+	if strings.HasPrefix(name, "G!") {
+		if gh, ok := u.eng.spec.GhostHeaps[name[2:]]; ok && gh.Internal {
+			return true
+		}
+	}
 	if !strings.HasPrefix(name, "F!") {
 		return false
 	}
